@@ -1067,7 +1067,14 @@ func (e *Engine) terminal(st *State) {
 		d := e.threadName(th.ID) + " blocked at " + e.opDesc(st, th.Pending, FireAlt{Case: -1})
 		blocked = append(blocked, d)
 		if th.Pending != nil {
-			sites = append(sites, e.threadEntryFn(th)+"@"+e.pos(th.Pending.Instr))
+			// line-number free: entry function of the thread, kind of the blocked operation, function it is in
+			in := "?"
+			if th.Pending.Instr != nil && th.Pending.Instr.Parent() != nil {
+				in = th.Pending.Instr.Parent().String()
+			} else if f := th.top(); f != nil {
+				in = f.Fn.String()
+			}
+			sites = append(sites, e.threadEntryFn(th)+" blocked in "+visNames[th.Pending.Kind]+" at "+in)
 		}
 		if th.MustFinish {
 			must = true
